@@ -25,9 +25,10 @@ def gen_graph_case(rng, max_n=7):
             if rng.random() < pe:
                 edges.append((i, j))
     # choose debug nodes: a node can be debug only if all its successors are debug -> pick from the end
+    pdbg = rng.choice([0.3, 0.3, 0.6])
     for j in reversed(range(n)):
         succ = [b for a, b in edges if a == j]
-        if all(s in debug for s in succ) and rng.random() < 0.3:
+        if all(s in debug for s in succ) and rng.random() < pdbg:
             debug.add(j)
     # setup nodes: only nodes all of whose preds are setup (and not debug)
     for j in range(n):
@@ -108,6 +109,10 @@ def gen_queries(rng, case, k=6):
                 q["target"] = [alias_of(i) for i in T]
             if rng.random() < 0.05:
                 q["target"] = (q["target"] or []) + [["id", "nope"]]
+            # empty (but not None) selections: an empty selection selects nothing
+            for key in ("target", "root", "exclude"):
+                if rng.random() < 0.04:
+                    q[key] = []
         qs.append(q)
     case["queries"] = qs
     return case
@@ -131,17 +136,31 @@ def build_dag(case, maxc=1, is_async=False, mk=None, attrs=None):
             kw.update(attrs.get(i, {}))
         fs.append((mk or tz.mknode)("n%d" % i, (lambda i: (lambda *a, **k: ("n%d" % i,) + tuple(a)))(i), **kw))
 
-    def desc():
+    viol = case.get("viol")
+
+    def desc(*params):
         v = {}
         for i in range(n):
             args = [v[j] for j in range(i) if (j, i) in eset]
+            kw = {}
             if case["consts"].get(str(i)):
                 args.append(7)
-            v[i] = fs[i](*args)
+            if viol is not None and viol["dst"] == i:
+                src = params[0] if viol["how"] == "param" else v[viol["src"]]
+                if viol["via"] == "arg":
+                    args.append(src)
+                elif viol["via"] == "kw":
+                    kw["extra"] = src
+                else:
+                    kw["twz_active"] = src
+            v[i] = fs[i](*args, **kw)
         return tuple(v[i] for i in range(n))
 
     desc.__qualname__ = "gdesc"
     desc.__name__ = "gdesc"
+    if viol is not None and viol["how"] == "param":
+        import inspect
+        desc.__signature__ = inspect.Signature([inspect.Parameter("p0", inspect.Parameter.POSITIONAL_OR_KEYWORD)])
     d = tawazi.dag(desc, max_concurrency=maxc, is_async=is_async)
     return d, fs
 
@@ -279,3 +298,21 @@ def other_seed_tables(cases, seed, repo):
         for f in (fin, fout):
             if os.path.exists(f):
                 os.remove(f)
+
+
+def gen_violation(rng, case):
+    """a copy of the case with ONE extra dependency (argument / keyword / flag) that may or may not break a
+    build rule; -> (case, expected_ok) with expected_ok computed from the rules of Build.v by the model"""
+    n = case["n"]
+    if n < 2:
+        return None
+    c = json.loads(json.dumps(case))
+    c["queries"] = []
+    how = rng.choice(["node", "node", "node", "param"])
+    dst = rng.randrange(1, n)
+    via = rng.choice(["arg", "kw", "flag"])
+    if how == "param":
+        c["viol"] = dict(how="param", src=None, dst=dst, via=via)
+    else:
+        c["viol"] = dict(how="node", src=rng.randrange(dst), dst=dst, via=via)
+    return c
